@@ -170,7 +170,7 @@ def project(prop, op, line):
     Rr = [s for s in secs if s.startswith("R")]
     ht = head.split()
     fwd = [t.split(":") for t in ht if t.startswith("fwd:")]
-    outs = [t for t in ht if t.startswith("out:")]
+    outs = [t for t in ht if t.startswith("out:") or t.startswith("wout:") or t.startswith("ran=")]
     sends = [t for t in ht if t.startswith("send:")]
     ret = [t for t in ht if t.startswith("ret=")]
     queues = ["%s q=%s" % (c["name"], c.get("q", "")) for c in C]
